@@ -73,7 +73,11 @@ def handleC09 (inp obs : List String) : Verdict :=
         | none =>
           match modelRes with
           | some (mok, mdata, _) =>
-            if mok != ok || (ok && mdata != stored) then { kind := "diverge", nontrivial, classes, detail := s!"model result {mok}, {mdata.length} bytes; implementation {ok}, {stored.length} bytes" }
+            -- the property determines the outcome when the plan holds no hard error (Ok, exact bytes); with a
+            -- hard error in the plan whether it is *reached* depends on the sequence of storage calls, which a
+            -- harmless rewrite may change: there the spec above (Ok ⇒ exact bytes) is all that is compared
+            if !hard && (mok != ok || mdata != stored) then { kind := "diverge", nontrivial, classes, detail := s!"model result {mok}, {mdata.length} bytes; implementation {ok}, {stored.length} bytes" }
+            else if hard && mok && ok && mdata != stored then { kind := "diverge", nontrivial, classes, detail := "model and implementation both Ok with different bytes" }
             else { kind := "ok", nontrivial, classes }
           | none => { kind := "ok", nontrivial, classes }
     | _, _ => { kind := "badcase", detail := "unparsable C09 write case" }
@@ -103,8 +107,9 @@ def handleC09 (inp obs : List String) : Verdict :=
         match specFail with
         | some dd => { kind := "specfail", nontrivial, classes, detail := dd ++ s!" [plan {repr plan}, payload sizes {ps.map List.length}]" }
         | none =>
-          if stack == 0 && model != items.take model.length then { kind := "diverge", nontrivial, classes, detail := s!"model yields {model.length} items (error {endsWithErr model}), implementation {items.length} (error {endsWithErr items})" }
-          else if stack == 0 && model.length != (if endsWithErr items then (okPrefix items).length + 1 else items.length) then { kind := "diverge", nontrivial, classes, detail := "model and implementation stop at different items" }
+          -- without a hard error the item sequence is determined (all records, then the end); with one, at
+          -- which record it strikes depends on the read-call sequence: only the spec above applies
+          if stack == 0 && !hard && model != items then { kind := "diverge", nontrivial, classes, detail := s!"model yields {model.length} items (error {endsWithErr model}), implementation {items.length} (error {endsWithErr items})" }
           else { kind := "ok", nontrivial, classes }
     | _, _ => { kind := "badcase", detail := "unparsable C09 read case" }
   | _ => { kind := "badcase", detail := "unknown C09 case kind" }
